@@ -20,12 +20,13 @@ type tkTok struct {
 }
 
 type tkHarness struct {
-	c       *Ctx
-	m       *mach
-	tok     mv
-	tokT    types.Type // static type of the tokenizer value
-	fault   string
-	ttNames map[int64]string
+	c        *Ctx
+	m        *mach
+	tok      mv
+	tokT     types.Type // static type of the tokenizer value
+	fault    string
+	ttNames  map[int64]string
+	lastPath string
 }
 
 var tokenizerCtors = map[string][2]string{
@@ -123,6 +124,7 @@ func (h *tkHarness) tokenize(s string) tkResult {
 	}
 	h.m.steps = 0
 	r, out := h.call("TokenizeBuffer", s)
+	h.lastPath = h.m.recentPath()
 	if out.kind != "ok" {
 		return tkResult{kind: out.kind, why: out.why}
 	}
